@@ -44,6 +44,10 @@ func NewHTTPResponseBody(
 		}
 	case SerializeFormatPlainString:
 		s, err = NewExchangeRegexSchema(b)
+		if err == nil {
+			// The regular expression have to be valid before it gets into the catalog.
+			err = s.Check()
+		}
 		if err != nil {
 			return HTTPResponseBody{}, adoptErrorForResponseBody(d, err)
 		}
